@@ -313,7 +313,17 @@ func runTerm(c *Ctx) {
 				c.R.Add("TERM-L", key, name, pos, true, "every loop is a range loop, a counted loop, a structural descent, or a reviewed irregular loop", kind+": "+detail)
 				continue
 			}
-			tkey := name + "|" + map[string]string{"walk": "walk", "worklist": "worklist", "unconditional": "pop", "queue-drain": "queue-drain"}[kind]
+			// a loop moved into a private step is reviewed under the function it is a step of
+			owner := name
+			for g, i := core.Outer(f), 0; i < 4 && p.PrivateHelper(g); i++ {
+				sites := p.Callers(g)
+				if len(sites) != 1 {
+					break
+				}
+				g = core.Outer(sites[0].Parent())
+				owner = core.FuncName(g)
+			}
+			tkey := owner + "|" + map[string]string{"walk": "walk", "worklist": "worklist", "unconditional": "pop", "queue-drain": "queue-drain"}[kind]
 			if why, ok := reviewedLoops[tkey]; ok && n == 1 && kind != "queue-drain" {
 				c.R.Add("TERM-L", key, name, pos, true, "every loop is a range loop, a counted loop, a structural descent, or a reviewed irregular loop", "reviewed: "+why)
 				continue
